@@ -21,6 +21,8 @@ pub enum Case5 {
     New(i64),
     /// a batch of implementation results re-computed by python3 (second, independent oracle)
     PyRecords { seed: u64, n: usize },
+    /// (a, b) then the nudged pair: results must not depend on the call before
+    Sequence { a: Big, b: Big, deltas: Vec<i64>, on_b: bool },
 }
 
 impl Case for Case5 {
@@ -29,6 +31,7 @@ impl Case for Case5 {
             Case5::Pair { a, b } => json!({"kind":"pair","a":a.to_json(),"b":b.to_json()}),
             Case5::New(n) => json!({"kind":"new","n":n}),
             Case5::PyRecords { seed, n } => json!({"kind":"pyrecords","seed":seed,"n":n}),
+            Case5::Sequence { a, b, deltas, on_b } => json!({"kind":"sequence","a":a.to_json(),"b":b.to_json(),"deltas":deltas,"on_b":on_b}),
         }
     }
     fn from_json(v: &Value) -> Option<Self> {
@@ -36,6 +39,12 @@ impl Case for Case5 {
             "pair" => Some(Case5::Pair { a: Big::from_json(v.get("a")?)?, b: Big::from_json(v.get("b")?)? }),
             "new" => Some(Case5::New(v.get("n")?.as_i64()?)),
             "pyrecords" => Some(Case5::PyRecords { seed: v.get("seed")?.as_u64()?, n: v.get("n")?.as_u64()? as usize }),
+            "sequence" => Some(Case5::Sequence {
+                a: Big::from_json(v.get("a")?)?,
+                b: Big::from_json(v.get("b")?)?,
+                deltas: v.get("deltas")?.as_array()?.iter().map(|x| x.as_i64()).collect::<Option<Vec<_>>>()?,
+                on_b: v.get("on_b")?.as_bool()?,
+            }),
             _ => None,
         }
     }
@@ -134,6 +143,69 @@ fn pair_strategy(max: usize) -> BoxedStrategy<Case5> {
     .boxed()
 }
 
+/// limb vectors made of *runs* of boundary limbs (long carry / borrow chains, all-ones blocks, interior zero blocks)
+fn runs_limbs(max_runs: usize) -> impl Strategy<Value = Vec<u32>> {
+    let v = prop_oneof![
+        4 => Just(0xFFFF_FFFFu32),
+        3 => Just(0u32),
+        1 => Just(1u32),
+        1 => Just(0x8000_0000u32),
+        1 => Just(0x7FFF_FFFFu32),
+        1 => Just(0xFFFF_FFFEu32),
+        1 => any::<u32>(),
+    ];
+    prop::collection::vec((v, 1usize..=8), 1..=max_runs).prop_map(|runs| {
+        let mut l = Vec::new();
+        for (x, n) in runs {
+            for _ in 0..n {
+                l.push(x);
+            }
+        }
+        l.truncate(14);
+        l
+    })
+}
+
+fn runs_strategy() -> BoxedStrategy<Case5> {
+    (runs_limbs(4), runs_limbs(4), any::<bool>(), any::<bool>(), 0u8..4)
+        .prop_map(|(la, lb, na, nb, rel)| {
+            let a = Big { neg: na, limbs: la };
+            let mut b = Big { neg: nb, limbs: lb };
+            // related operands: b = complement-like / a ± 1 (carry or borrow ripples through the whole run)
+            if rel == 0 {
+                b = Big::from_ref(&a.to_ref().abs().add(&RefInt::one()));
+                b.neg = nb;
+            } else if rel == 1 {
+                let one = Big { neg: false, limbs: vec![1] };
+                return Case5::Pair { a, b: one };
+            }
+            Case5::Pair { a, b }
+        })
+        .boxed()
+}
+
+/// two operations in a row on nearly identical operands (each of the lowest limbs moved by a small amount):
+/// results must not depend on what was computed just before (caches, memo tables, reused buffers)
+fn near_sequence_strategy(max: usize) -> BoxedStrategy<Case5> {
+    (big_nonzero(max), big_nonzero(max), prop::collection::vec(-40i64..=40, 1..=3), any::<bool>())
+        .prop_map(|(a, b, deltas, on_b)| Case5::Sequence { a, b, deltas, on_b })
+        .boxed()
+}
+
+fn nudge(x: &Big, deltas: &[i64]) -> Big {
+    let mut l = x.limbs.clone();
+    for (i, d) in deltas.iter().enumerate() {
+        if i < l.len() {
+            l[i] = (l[i] as i64).wrapping_add(*d) as u32;
+        }
+    }
+    let n = l.len();
+    if l[n - 1] == 0 {
+        l[n - 1] = 1;
+    }
+    Big { neg: x.neg, limbs: l }
+}
+
 fn new_strategy() -> BoxedStrategy<Case5> {
     let specials: Vec<i64> = vec![
         0,
@@ -199,6 +271,29 @@ pub fn check(c: &Case5, st: &mut Stats, tier: Tier) -> CheckResult {
     let display_limit = 16usize;
     match c {
         Case5::PyRecords { .. } => Ok(()),
+        Case5::Sequence { a, b, deltas, on_b } => {
+            let (a2, b2) = if *on_b { (a.clone(), nudge(b, deltas)) } else { (nudge(a, deltas), b.clone()) };
+            // first pair, then the neighbour, then the first pair again - every result against the reference
+            check(&Case5::Pair { a: a.clone(), b: b.clone() }, st, tier)?;
+            check(&Case5::Pair { a: a2.clone(), b: b2.clone() }, st, tier)?;
+            // interleaved single operations (no other call in between)
+            let (ia, ib, ia2, ib2) = (a.to_impl(), b.to_impl(), a2.to_impl(), b2.to_impl());
+            let (ra, rb, ra2, rb2) = (a.to_ref(), b.to_ref(), a2.to_ref(), b2.to_ref());
+            let q1 = &ia / &ib;
+            let q2 = &ia2 / &ib2;
+            let r2 = &ia2 % &ib2;
+            let r1 = &ia % &ib;
+            expect(&q1, &ra.divrem_trunc(&rb).0, "c05:div-sequence", &|| format!("{} / {} (first of two consecutive divisions)", ra.to_dec(), rb.to_dec()), 16)?;
+            expect(&q2, &ra2.divrem_trunc(&rb2).0, "c05:div-sequence", &|| format!("{} / {} right after {} / {}", ra2.to_dec(), rb2.to_dec(), ra.to_dec(), rb.to_dec()), 16)?;
+            expect(&r2, &ra2.divrem_trunc(&rb2).1, "c05:rem-sequence", &|| format!("{} % {} right after dividing the neighbouring pair", ra2.to_dec(), rb2.to_dec()), 16)?;
+            expect(&r1, &ra.divrem_trunc(&rb).1, "c05:rem-sequence", &|| format!("{} % {} right after {} % {}", ra.to_dec(), rb.to_dec(), ra2.to_dec(), rb2.to_dec()), 16)?;
+            let m1 = &ia * &ib;
+            let m2 = &ia2 * &ib2;
+            expect(&m1, &ra.mul(&rb), "c05:mul-sequence", &|| "first product".to_string(), 16)?;
+            expect(&m2, &ra2.mul(&rb2), "c05:mul-sequence", &|| format!("{} * {} right after the neighbouring product", ra2.to_dec(), rb2.to_dec()), 16)?;
+            st.class("consecutive operations on neighbouring operands");
+            Ok(())
+        }
         Case5::New(n) => {
             let n = *n as isize;
             let want = RefInt::from_i128(n as i128);
@@ -322,6 +417,8 @@ pub fn run(ctx: &Ctx, out: &mut Outcome) {
     search::<Case5>(ctx, out, "pairs", n_pairs, &move || pair_strategy(max), &move |c, st| check(c, st, tier));
     // a band of short operands: dense coverage of 1-3 limb patterns
     search::<Case5>(ctx, out, "pairs-short", tier.pick(40_000, 400_000), &|| pair_strategy(3), &move |c, st| check(c, st, tier));
+    search::<Case5>(ctx, out, "runs", tier.pick(20_000, 200_000), &runs_strategy, &move |c, st| check(c, st, tier));
+    search::<Case5>(ctx, out, "near-sequences", tier.pick(25_000, 250_000), &|| near_sequence_strategy(3), &move |c, st| check(c, st, tier));
     search::<Case5>(ctx, out, "new", tier.pick(20_000, 200_000), &new_strategy, &move |c, st| check(c, st, tier));
     if !out.failed() {
         python_stage(ctx, out, ctx.seed ^ 0xC05, tier.pick(1_000, 20_000));
